@@ -20,6 +20,7 @@ depth:   pairs with an object valued default get the deepest tree; the first cla
 from __future__ import annotations
 
 import copy
+import json
 import os
 
 from verif import c12_helpers as h
@@ -145,6 +146,40 @@ def _sig(trace: list[dict]) -> tuple:
                  for r in trace)
 
 
+def _trace_of(sig: tuple) -> list[dict]:
+    return [{'act': r[0], 'i': r[1], 's': r[2], 'v': r[3], 'live': list(r[4]), 'val': list(r[5]), 'ref': list(r[6]),
+             'fresh': r[7]} for r in sig]
+
+
+_TREES: dict = {}
+_DEPTH_OF: list = []
+_MEMBERS: list = []
+
+
+def _replay_pair(mi: int) -> dict:
+    """Worker process: replay the tree of histories for one pair; return the distinct recorded traces."""
+    global _MEMBERS  # noqa: PLW0603
+    try:
+        if not _MEMBERS:
+            _MEMBERS = h.discover()      # same order in every process
+        m = _MEMBERS[mi]
+        m.prepare()
+        sigs = set()
+        replays = skipped = 0
+        for beh in _TREES[_DEPTH_OF[mi]]:
+            tr = replay(m, beh)
+            if tr is None:
+                skipped += 1
+            else:
+                replays += 1
+                sigs.add(_sig(tr))
+        return {'sigs': sigs, 'replays': replays, 'skipped': skipped, 'resets': m.resets, 'failed': m.failed_calls,
+                'unsupported': {k: v for k, v in m.unsupported.items() if 'no such method' not in v}}
+    except Exception as ex:  # noqa: BLE001
+        import traceback
+        return {'error': f'pair #{mi}: {ex}\n{traceback.format_exc()[-1500:]}'}
+
+
 # --------------------------------------------------------------------------- the check
 def check(run, replay_path=None):
     xs = h._xs()  # noqa: SLF001
@@ -160,90 +195,111 @@ def check(run, replay_path=None):
 
 
 def _check(run):
+    import time
+    t0 = time.time()
+    phases = {}
     # 1. design: exhaustive model check, defect models, trees of histories (TLC processes run side by side)
     from concurrent.futures import ThreadPoolExecutor
-    d_obj, d_obj_inherited, d_first, d_inherited = run.pick((4, 3, 3, 2), (5, 5, 4, 3))
+    d_obj, d_obj_inherited, d_first, d_inherited = run.pick((4, 3, 3, 2), (5, 4, 4, 3))
     depths = sorted({d_obj, d_obj_inherited, d_first, d_inherited})
     with ThreadPoolExecutor(max_workers=4) as pool:
         f_mc = pool.submit(run_tlc, 'Defaults', 'Defaults_mc.cfg', coverage=True, workers=2)
-        f_trees = {d: pool.submit(tree, d) for d in reversed(depths)}
+        f_tree = pool.submit(tree, depths[-1])
         f_defects = [pool.submit(defect_model, sw, prop) for sw, prop in DEFECTS[:run.pick(2, len(DEFECTS))]]
         run.add_tlc(f_mc.result(), ALL_OPS)
-        trees = {}
-        for d in depths:
-            res, trees[d] = f_trees[d].result()
-            run.add_tlc(res)
+        res, deepest = f_tree.result()
+        run.add_tlc(res)
+        # the histories of exactly d < D calls are the prefixes of the histories of D calls (some call is always
+        # enabled and the numbering conventions are prefix closed)
+        trees = {depths[-1]: deepest}
+        for d in depths[:-1]:
+            uniq = {}
+            for b in deepest:
+                uniq.setdefault(json.dumps(b[:d + 1], sort_keys=True), b[:d + 1])
+            trees[d] = list(uniq.values())
         for f in f_defects:
             f.result()
             run.count('defect_models_rejected_by_tlc')
     run.note('exhaustive', True)
     run.note('model_constants', {'instances': N, 'written_values': 2, 'actions': ALL_OPS})
 
+    phases['tlc_model_and_trees'] = round(time.time() - t0, 1)
     # 2. reflection: every (class, member) pair
     members = h.discover()
-    for m in members:
-        m.prepare()
     obj_pairs = [m for m in members if m.kind == 'obj']
     if len(obj_pairs) < 20 or len(members) < 200:
         raise MachineryError(f'reflection found only {len(obj_pairs)} object valued / {len(members)} pairs')
-    seen_descriptors = set()
-    plan = []
+    seen_descriptors, seen_kinds = set(), set()
+    depth_of = []
     for m in members:
         first = id(m.prop) not in seen_descriptors
         seen_descriptors.add(id(m.prop))
-        depth = (d_obj if first else d_obj_inherited) if m.kind == 'obj' else (d_first if first else d_inherited)
-        plan.append((m, depth))
+        kind = (m.descriptor, m.container, type(getattr(m.prop, 'value_class', None)).__name__)
+        representative = kind not in seen_kinds
+        seen_kinds.add(kind)
+        if m.kind == 'obj':
+            depth_of.append(d_obj if first else d_obj_inherited)
+        elif run.quick:    # quick: the medium tree only for one pair per kind of list descriptor
+            depth_of.append(d_first if representative else d_inherited)
+        else:
+            depth_of.append(d_first if first else d_inherited)
     run.note('pairs', {'total': len(members), 'object_valued_default': len(obj_pairs),
                        'list_valued': len(members) - len(obj_pairs),
-                       'distinct_descriptors': len(seen_descriptors)})
+                       'distinct_descriptors': len(seen_descriptors),
+                       'pairs_per_tree_depth': {str(d): depth_of.count(d) for d in sorted(set(depth_of))}})
     run.note('tree_sizes', {str(d): len(b) for d, b in trees.items()})
-    unsupported = {m.ident: {k: v for k, v in m.unsupported.items() if 'no such method' not in v} for m in members}
-    unsupported = {k: v for k, v in unsupported.items() if v}
-    run.note('calls_the_library_cannot_perform', unsupported)
-    if len(unsupported) > 24:
-        raise MachineryError(f'too many pairs with unusable parse/copy calls: {unsupported}')
 
-    # 3. spec -> code: replay; identical abstract traces are judged once
-    distinct: dict[tuple, int] = {}
-    traces: list[list[dict]] = []
-    users: list[list[tuple]] = []       # per distinct trace: (member index, depth, behaviour index)
-    replays = skipped = 0
+    # 3. spec -> code: replay (worker processes, one task per pair); identical abstract traces are judged once
+    global _TREES, _DEPTH_OF  # noqa: PLW0603
+    _TREES, _DEPTH_OF = trees, depth_of
+    import multiprocessing as mp
+    order = sorted(range(len(members)), key=lambda i: -len(trees[depth_of[i]]) * (2 if members[i].container else 1))
+    nproc = max(1, min(8, (os.cpu_count() or 2) // 2))
+    with mp.get_context('fork').Pool(nproc) as pool:
+        results = pool.map(_replay_pair, order, chunksize=1)
+    by_member = dict(zip(order, results))
+    users: dict[tuple, int] = {}        # distinct recorded trace -> bit mask of the pairs that produced it
+    replays = skipped = resets = 0
+    failed, unsupported = {}, {}
+    for mi in range(len(members)):
+        r = by_member[mi]
+        if 'error' in r:
+            raise MachineryError(r['error'])
+        for sig in r['sigs']:
+            users[sig] = users.get(sig, 0) | (1 << mi)
+        replays += r['replays']
+        skipped += r['skipped']
+        resets += r['resets']
+        failed.update(r['failed'])
+        if r['unsupported']:
+            unsupported[members[mi].ident] = r['unsupported']
+    run.note('calls_the_library_cannot_perform', unsupported)
+    if len(unsupported) > 16:
+        raise MachineryError(f'too many pairs with unusable parse/copy calls: {unsupported}')
+    sigs = sorted(users)
+    traces = [_trace_of(sig) for sig in sigs]
     acts_done = set()
-    for mi, (m, depth) in enumerate(plan):
-        for bi, beh in enumerate(trees[depth]):
-            tr = replay(m, beh)
-            if tr is None:
-                skipped += 1
-                continue
-            replays += 1
-            sig = _sig(tr)
-            k = distinct.get(sig)
-            if k is None:
-                k = distinct[sig] = len(traces)
-                traces.append(tr)
-                users.append([])
-            if len(users[k]) < 400:
-                users[k].append((mi, depth, bi))
-    for tr in traces:
-        acts_done.update(r['act'] for r in tr)
-        run.distinct_traces.add(_sig(tr))
+    for sig in sigs:
+        acts_done.update(r[0] for r in sig)
+        run.distinct_traces.add(sig)
     missing = [a for a in ALL_OPS if a not in acts_done]
     if missing:
         raise MachineryError(f'API calls never replayed: {missing}')
     run.evaluations = replays
-    failed = {}
-    for m in members:
-        failed.update(m.failed_calls)
     run.note('histories_cut_short_because_a_library_call_raised', failed)
     if sum(failed.values()) > replays // 10:
         raise MachineryError(f'too many histories cut short by exceptions of the library: {failed}')
     run.note('replays', {'histories_replayed': replays, 'histories_skipped_call_not_offered': skipped,
-                         'distinct_recorded_traces': len(traces),
-                         'default_resets_between_histories': sum(m.resets for m in members)})
-    run.sample({'pair': plan[0][0].ident, 'trace': traces[0][:4]})
+                         'distinct_recorded_traces': len(traces), 'worker_processes': nproc,
+                         'default_resets_between_histories': resets})
+    run.sample({'pairs': [members[i].ident for i in range(len(members)) if users[sigs[-1]] >> i & 1][:3],
+                'trace': traces[-1]})
 
+    phases['replay'] = round(time.time() - t0, 1)
     # 4. code -> spec: TLC judges every distinct recorded trace
     rejects = tracecheck.validate(run, 'DefaultsTrace', 'DefaultsTrace.cfg', traces, chunk=6000)
+    phases['trace_validation'] = round(time.time() - t0, 1)
+    run.note('seconds_elapsed_after_phase', phases)
     by_trace: dict[int, list] = {}
     for (ti, li, clause) in rejects:
         by_trace.setdefault(ti, []).append((li, clause))
@@ -259,13 +315,20 @@ def _check(run):
         val_rj = [(li, c) for li, c in rj if c in VALUE_CLAUSES]
         li, clause = (val_rj or rj)[0]
         rec = traces[ti][li]
-        shared_at = next((x for x, c in rj if c == 'no_sharing'), None)
+        shared_at = None      # last call up to the failure after which the recorded sharing pattern is a new one
+        for x in range(1, li + 1):
+            if traces[ti][x]['ref'] != traces[ti][x - 1]['ref'] and \
+                    traces[ti][x]['ref'] != list(range(1, N + 1)) and any(a == x for a, c in rj if c == 'no_sharing'):
+                shared_at = x
         shared_by = traces[ti][shared_at]['act'] if shared_at is not None else 'none'
-        for (mi, depth, bi) in users[ti]:
-            m = plan[mi][0]
+        beh = [{'act': 'Init'}] + [{k: v for k, v in (('act', r['act']), ('i', r['i']), ('s', r['s']), ('v', r['v']))
+                                    if v not in (0, '-')} for r in traces[ti][1:]]
+        for mi in range(len(members)):
+            if not users[sigs[ti]] >> mi & 1:
+                continue
+            m = members[mi]
             key = (m.descriptor, shared_by, rec['act'], clause)
             cur = found.get(key)
-            beh = trees[depth][bi]
             if cur is None:
                 cur = found[key] = {'pair': None, 'members': set(), 'histories': 0}
             cur['members'].add(m.ident)
